@@ -4,6 +4,7 @@ go 1.24.0
 
 require (
 	github.com/microsoft/yardl/tooling v0.0.0
+	github.com/rs/zerolog v1.34.0
 	golang.org/x/tools v0.29.0
 	gopkg.in/yaml.v3 v3.0.1
 )
@@ -13,7 +14,6 @@ require (
 	github.com/dlclark/regexp2 v1.11.5 // indirect
 	github.com/mattn/go-colorable v0.1.13 // indirect
 	github.com/mattn/go-isatty v0.0.19 // indirect
-	github.com/rs/zerolog v1.34.0 // indirect
 	golang.org/x/mod v0.22.0 // indirect
 	golang.org/x/sync v0.10.0 // indirect
 	golang.org/x/sys v0.38.0 // indirect
